@@ -244,6 +244,7 @@ mut("P18r", "lengthlimit_reader.go", "			r.rest = append(append([]byte{}, b[line
 mut("P19r", "conn.go", "	line, err := c.text.R.ReadString('\\n')\n	if err != nil {\n		return \"\", err\n	}\n", "	line, err := c.text.R.ReadString('\\n')\n	if err != nil && line == \"\" {\n		return \"\", err\n	}\n	if !strings.HasSuffix(line, \"\\n\") {\n		line += \"\\n\"\n	}\n", ["C19"], "bounded:line-limit-end-to-end", note="regression of the partial-line fix: the head of an over-long line runs as a command")
 mut("P20r", "conn.go", "	if c.server.MaxLineLength > 0 && len(line) > c.server.MaxLineLength {\n		// Read ahead while the limit was lifted for a BDAT chunk.\n		return \"\", ErrTooLongLine\n	}\n", "", ["C19"], "a-line-handed-to-the-command-loop-is-within-the-limit", note="regression: lines read ahead behind a chunk escape the limit")
 mut("P21r", "conn.go", "	c.locker.Lock()\n	if c.session != nil {\n		c.session.Logout()\n		c.session = nil\n	}\n	c.locker.Unlock()\n	c.helo = \"\"", "	if session := c.Session(); session != nil {\n		session.Logout()\n		c.setSession(nil)\n	}\n	c.helo = \"\"", ["C08", "C20"], "holds:Conn.locker@Session.Logout", note="regression: STARTTLS logs out outside the critical section")
+mut("M112", "conn.go", "func (c *Conn) reset() {\n	c.locker.Lock()\n	defer c.locker.Unlock()\n\n	if c.bdatPipe != nil {", "func (c *Conn) reset() {\n	if c.bdatPipe != nil {", ["C20"], "(*Conn).reset/holds", note="reset no longer takes the connection lock")
 # ---------------------------------------------------------------- client.go
 mut("M111", "client.go", "	if _, ok := c.ext[\"SIZE\"]; ok && opts != nil && opts.Size != 0 {", "	if _, ok := c.ext[\"SIZE\"]; ok && opts != nil && opts.Size > 1 {", ["C14"], "every-requested-and-offered-option-is-rendered", note="SIZE=1 is not rendered")
 mut("M104", "client.go", "		if resp == nil {\n			break\n		}\n		resp64 = make([]byte, encoding.EncodedLen(len(resp)))", "		if len(resp) == 0 {\n			break\n		}\n		resp64 = make([]byte, encoding.EncodedLen(len(resp)))", ["C09"], "success-means-the-server-said-235", note="client stops the AUTH exchange on an empty (non-nil) response and reports success")
@@ -277,6 +278,7 @@ mut("R05", "conn.go", "	args := strings.Fields(arg)\n	if len(args) == 0 {\n		c.w
 mut("R06", "conn.go", "	if !c.fromReceived {\n		c.writeResponse(502, EnhancedCode{5, 5, 1}, \"Missing MAIL FROM command.\")\n		return\n	}\n	if c.bdatPipe != nil {\n		c.writeResponse(502, EnhancedCode{5, 5, 1}, \"RCPT not allowed during message transfer\")\n		return\n	}", "	if c.bdatPipe != nil {\n		c.writeResponse(502, EnhancedCode{5, 5, 1}, \"RCPT not allowed during message transfer\")\n		return\n	}\n	if !c.fromReceived {\n		c.writeResponse(502, EnhancedCode{5, 5, 1}, \"Missing MAIL FROM command.\")\n		return\n	}", ["C03", "C11"], kind="refactor", note="the two independent guards of handleRcpt swapped")
 mut("R07", "server.go", "	var err error\n	s.locker.Lock()\n	for _, l := range s.listeners {\n		if lerr := l.Close(); lerr != nil && err == nil {\n			err = lerr\n		}\n	}\n\n	for conn := range s.conns {", "	var err error\n	s.locker.Lock()\n	ls := s.listeners\n	for _, l := range ls {\n		if lerr := l.Close(); lerr != nil && err == nil {\n			err = lerr\n		}\n	}\n\n	for conn := range s.conns {", ["C20"], kind="refactor", note="listeners hoisted into a local under the lock")
 mut("R08", "client.go", "	if d.closed {\n		return fmt.Errorf(\"smtp: data writer closed twice\")\n	}", "	if wasClosed := d.closed; wasClosed {\n		return fmt.Errorf(\"smtp: data writer closed twice\")\n	}", ["C16", "C18"], kind="refactor", note="closed flag read into a local first")
+mut("R09", "conn.go", "	c.closed = true\n\n	if c.bdatPipe != nil {\n		c.bdatPipe.CloseWithError(ErrDataReset)\n		c.bdatPipe = nil\n	}\n\n	if c.session != nil {\n		c.session.Logout()\n		c.session = nil\n	}\n\n	return c.conn.Close()\n}", "	c.closed = true\n	c.logout()\n\n	return c.conn.Close()\n}\n\n// logout aborts a transfer in progress and releases the session. The caller holds c.locker.\nfunc (c *Conn) logout() {\n	if c.bdatPipe != nil {\n		c.bdatPipe.CloseWithError(ErrDataReset)\n		c.bdatPipe = nil\n	}\n\n	if c.session != nil {\n		c.session.Logout()\n		c.session = nil\n	}\n}", ["C08", "C20", "C07"], kind="refactor", note="the body of Close extracted into a helper that runs under the same lock")
 mut("R03", "lengthlimit_reader.go", """	for i, chr := range b[:n] {
 		if chr == '\\n' {""", """	buf := b[:n]
 	for i, chr := range buf {
